@@ -53,13 +53,19 @@ Print Assumptions C07_rendered_fields_serialised.
    (ConvertBatchType maps each SEC code of NewBatch to the batch type of that name; type-code literals
    equal the field's number; CTX/ATX only; the three RFC 3339 layouts; the five rewritten date fields;
    the order of the calls per batch and of the steps of FileFromJSONWith); the removal loop of
-   upsertOffsets has the shape the model assumes; the writer emits addenda in the order [lines] uses. *)
+   upsertOffsets has the shape the model assumes; every addenda field of EntryDetail / IATEntryDetail gets a type code; the writer emits addenda in the order [lines] uses. *)
 Theorem C07_post_table_ok :
   post_table_ok json_post_table = true /\
   (forall sec, convert_type json_post_table sec =
      (if existsb (fun p => String.eqb sec (fst p)) (pt_convert json_post_table) then "Batch" ++ sec else "Batch")%string) /\
-  (match t_tail offset_table with TailSucc => true | _ => false end) && t_redo offset_table && negb (t_unknown offset_table) = true.
-Proof. exact (conj post_table_checked (conj convert_type_current offset_loop_shape)). Qed.
+  (match t_tail offset_table with TailSucc => true | _ => false end) && t_redo offset_table && negb (t_unknown offset_table) = true /\
+  (map fst (pt_typecodes json_post_table) = ["EntryDetail"; "IATEntryDetail"] /\
+   forallb (fun e => match struct_named (fst e) with
+                     | Some t => forallb (fun f => existsb (fun p => String.eqb f (fst p)) (snd e)) (addenda_fields t)
+                                 && negb (Nat.eqb (length (addenda_fields t)) 0)
+                     | None => false
+                     end) (pt_typecodes json_post_table) = true).
+Proof. exact (conj post_table_checked (conj convert_type_current (conj offset_loop_shape typecodes_complete))). Qed.
 Print Assumptions C07_post_table_ok.
 
 (* Timestamps too short to be RFC 3339 (fewer than 19 bytes: every YYMMDD / HHmm value) are left alone. *)
